@@ -183,6 +183,8 @@ fn targeted(seed: u64, tier: &str) -> Vec<Doc> {
                 let child = if cu == "objectBoundingBox" && vb.is_empty() { r#"<rect width="0.1" height="0.2"/>"# } else { r#"<rect width="4" height="5"/>"# };
                 let mu = *rng.pick(&["userSpaceOnUse", "objectBoundingBox"]);
                 let mcu = *rng.pick(&["userSpaceOnUse", "objectBoundingBox"]);
+                // (the children of the definitions use a bounding-box gradient of their own: it has to be resolved
+                // whether the definition is used once or shared)
                 let users = match rng.below(4) {
                     0 => r##"<rect id="u1" x="5" y="5" width="40" height="30" fill="url(#p)" mask="url(#m)"/>"##.to_string(),
                     1 => r##"<rect id="u1" x="5" y="5" width="40" height="30" fill="url(#p)" mask="url(#m)"/><circle id="u2" cx="70" cy="60" r="20" stroke="url(#p)" mask="url(#m)"/>"##.to_string(),
@@ -190,7 +192,7 @@ fn targeted(seed: u64, tier: &str) -> Vec<Doc> {
                     _ => r##"<g id="u0" fill="url(#p)"><rect id="u1" x="5" y="5" width="40" height="30"/><rect id="u2" x="50" y="50" width="10" height="30"/></g>"##.to_string(),
                 };
                 format!(
-                    r##"{HDR}<defs><pattern id="p" patternUnits="{pu}" patternContentUnits="{cu}" width="{pw}" height="{ph}"{vb}>{child}</pattern><mask id="m" maskUnits="{mu}" maskContentUnits="{mcu}" x="0" y="0" width="{}" height="{}"><rect width="{}" height="{}" fill="white"/></mask></defs>{users}</svg>"##,
+                    r##"{HDR}<defs><pattern id="p" patternUnits="{pu}" patternContentUnits="{cu}" width="{pw}" height="{ph}"{vb}>{child}<circle cx="2" cy="2" r="1" fill="url(#inner)"/></pattern><mask id="m" maskUnits="{mu}" maskContentUnits="{mcu}" x="0" y="0" width="{}" height="{}"><rect width="{}" height="{}" fill="url(#innerw)"/></mask><linearGradient id="inner"><stop offset="0" stop-color="red"/><stop offset="1" stop-color="blue"/></linearGradient><radialGradient id="innerw"><stop offset="0" stop-color="white"/><stop offset="1" stop-color="gray"/></radialGradient></defs>{users}</svg>"##,
                     if mu == "objectBoundingBox" { "1" } else { "100" }, if mu == "objectBoundingBox" { "1" } else { "100" },
                     if mcu == "objectBoundingBox" { "0.8" } else { "80" }, if mcu == "objectBoundingBox" { "0.8" } else { "80" }
                 )
